@@ -1,6 +1,7 @@
 package main
 
 import (
+	"net/url"
 	"bytes"
 	"crypto/sha256"
 	"encoding/hex"
@@ -226,6 +227,21 @@ func (o *oracleCtx) c01() {
 	h, r := o.h, o.r
 	vn := variantName(h.Variant)
 	lead := leadingTrack(h)
+	// the decoded units below are read from what the muxer RETAINS (snapshot); a unit is preserved for a client only
+	// if its segment is ADVERTISED: the playlist of the same instant lists every retained segment (round 10: C01-m14,
+	// playlist generators skipping segments whose duration is not positive)
+	if len(h.Faults) == 0 && len(h.WriteFaults) == 0 && h.Leg == "" {
+		for _, rot := range r.rotations {
+			for si, pm := range rot.playlists {
+				if pm == nil || pm.err != "" || si >= len(rot.snap.Streams) {
+					continue
+				}
+				if n := rot.snap.Streams[si].SegmentCount; len(pm.segs) != n {
+					o.fail("C01", vn+":retained-segment-not-advertised", "stream %d after write %d: the muxer retains %d segments, the playlist of the same instant lists %d", si, rot.k, n, len(pm.segs))
+				}
+			}
+		}
+	}
 	for t := range h.Tracks {
 		W := eligible(h, r, t)
 		D := decodedOfTrack(h, r, t)
@@ -599,6 +615,13 @@ func (o *oracleCtx) c02() {
 // ---------------------------------------------------------------- C03
 func roundHalfUpSeconds(ns int64) int64 { return (ns + 5e8) / 1e9 }
 
+// durTextTol (ns): how far the five-decimal text of a duration may be from the exact media span (a rational
+// number of ns). The text is the span rounded to 10 us, so at most 5000 ns away, plus less than 1 ns for the
+// two tick -> ns conversions (each truncated) whose difference the muxer prints; a span exactly half-way
+// between two texts may go either way (the muxer rounds the binary float64 of the seconds). A text that is
+// the truncated value, or a fraction that rounds up to 100000 and is not carried, is further away.
+const durTextTol = 5001
+
 func (o *oracleCtx) c03() {
 	h, r := o.h, o.r
 	vn := variantName(h.Variant)
@@ -673,7 +696,7 @@ func (o *oracleCtx) c03() {
 					continue
 				}
 				if sp, ok := spans[key.id]; ok && sp.ok {
-					if !ratAbsDiffLE(ticksToNs(sp.ticks, rate), sg.durNs, 10000) {
+					if !ratAbsDiffLE(ticksToNs(sp.ticks, rate), sg.durNs, durTextTol) {
 						o.fail("C03", vn+":extinf", "stream %d segment %d: EXTINF %s but the leading track spans %d ticks at %d Hz", si, key.id, sg.durText, sp.ticks, rate)
 					}
 					if sg.hasDT && (sg.dtMs-sp.ntp/1e6 > 1 || sg.dtMs-sp.ntp/1e6 < -1) {
@@ -704,7 +727,7 @@ func (o *oracleCtx) c03() {
 				key, ok := parsePath(r.streams, pth)
 				if ok {
 					if t, ok := partSpan[key.id&0xffffffff]; ok {
-						if !ratAbsDiffLE(ticksToNs(t, rate), pp.durNs, 10000) {
+						if !ratAbsDiffLE(ticksToNs(t, rate), pp.durNs, durTextTol) {
 							o.fail("C03", "ll:part-duration", "stream %d part %d: DURATION %s but the leading track's part spans %d ticks at %d Hz", si, key.id, pp.durText, t, rate)
 						}
 					}
@@ -746,13 +769,53 @@ func (o *oracleCtx) c04() {
 	byMSN := map[int]map[int64]entry{}
 	prevPl := map[int]*parsedMedia{}
 	lastPartID := map[int]int64{}
+	// every URI of a response carries the pass-through query of the request it answers, nothing else
+	ownQuery := func(si int, pm *parsedMedia, want string, who string, alt ...string) {
+		var uris []string
+		if pm.mapURI != "" {
+			uris = append(uris, pm.mapURI)
+		}
+		for _, sg := range pm.segs {
+			if !sg.gap {
+				uris = append(uris, sg.uri)
+			}
+			for _, pp := range sg.parts {
+				uris = append(uris, pp.uri)
+			}
+		}
+		for _, pp := range pm.trailing {
+			uris = append(uris, pp.uri)
+		}
+		if pm.hintURI != "" {
+			uris = append(uris, pm.hintURI)
+		}
+		for _, u := range uris {
+			_, qq := stripQuery(u)
+			okq := qq == want
+			for _, a := range alt {
+				okq = okq || qq == a
+			}
+			if !okq {
+				o.fail("C04", vn+":uri-carries-the-query-of-another-request", "stream %d: the playlist sent to %s (query %q) lists %s", si, who, want, u)
+				return
+			}
+		}
+	}
 	for _, rot := range r.rotations {
+		for _, ob := range rot.otherQuery {
+			ownQuery(ob.si, ob.pm, ob.query, "the other client")
+		}
 		for si, pm := range rot.playlists {
 			if pm == nil || pm.err != "" {
 				if pm != nil {
 					o.fail("C04", vn+":playlist-unreadable", "stream %d: %s", si, pm.err)
 				}
 				continue
+			}
+			// (the fMP4 variants re-encode the pass-through parameters - url.ParseQuery, Encode -, the MPEG-TS
+			// playlist appends the raw query: both spellings are the request's own query)
+			if hq, err := url.ParseQuery(h.Query); err == nil {
+				ownQuery(si, pm, hq.Encode(), "the history's client", h.Query)
 			}
 			if byMSN[si] == nil {
 				byMSN[si] = map[int64]entry{}
@@ -1149,10 +1212,7 @@ func (o *oracleCtx) c16() {
 				if rd.typ != "AUDIO" || rd.group == "" || rd.group != p.audio {
 					o.fail("C16", vn+":rendition-group", "rendition %d: TYPE %q GROUP-ID %q, variant AUDIO %q", i, rd.typ, rd.group, p.audio)
 				}
-				wantName := ""
-				if tc.Name != 0 {
-					wantName = "name" + strconv.Itoa(tc.Name)
-				}
+				wantName := trackNameOf(tc.Name)
 				if (wantName != "" && rd.name != wantName) || rd.name == "" {
 					o.fail("C16", vn+":rendition-name", "rendition %d: NAME %q, track name %q", i, rd.name, wantName)
 				}
